@@ -78,7 +78,7 @@ INIT = {'g_int': 11, 'g_ll': -5000000000, 'g_dbl': 1.5, 'g_f': 0.25, 'g_ch': b'c
 
 def generate(ctx):
     rng = ctx.rng('gen')
-    n = ctx.scale(240, 10000)
+    n = ctx.scale(600, 10000)
     seeds = [rng.getrandbits(40) for _ in range(n)]
     return make_setup(ctx), [make_case(ctx, seeds[i:i + PER], i // PER) for i in range(0, n, PER)]
 
@@ -435,8 +435,16 @@ def last_crumb(case):
     return {'seed': int(p[0]), 'mode': p[1], 'phase': p[2], 'op': p[3], 'name': p[4], 'step': p[5]}
 
 
+def crash_text(obs):
+    san, err = obs.get('_san') or '', obs.get('_stderr') or ''
+    k = san.rfind('ERROR: AddressSanitizer')
+    i = err.rfind('Fatal Python error')
+    return (san[max(0, k - 12):][:900] + '\n' + err[max(0, i):][:900]).strip()
+
+
 def judge_case(ctx, case, obs):
-    """returns the seeds of the case that were not run (the child died before them)"""
+    """returns the seeds of the case that have to be run again (the child died in another
+    history of the batch, whose report was lost)"""
     if isinstance(obs, dict) and '_crash' in obs:
         ctx.count('child_crashes')
         cr = last_crumb(case)
@@ -444,14 +452,13 @@ def judge_case(ctx, case, obs):
             ctx.sanitizer(obs['_san'], case, deciding=False)
         if cr is None or cr['seed'] not in case['seeds']:
             ctx.violation('crash:unattributed', 'child died (rc=%s) outside a history step\n%s' %
-                          (obs['_crash'], (obs.get('_san') or obs.get('_stderr', ''))[-1500:]), case)
+                          (obs['_crash'], crash_text(obs)), case)
             return []
         ctx.violation('crash:%s:%s-%s' % (cr['mode'], cr['phase'], cr['op']),
                       'child process died (rc=%s) in history seed %d (%s) at step %s: %s %s %s\n%s' %
                       (obs['_crash'], cr['seed'], cr['mode'], cr['step'], cr['phase'], cr['op'],
-                       cr['name'], (obs.get('_san') or obs.get('_stderr', ''))[-1500:]),
-                      {'seeds': [cr['seed']], 'no': 'replay'})
-        return case['seeds'][case['seeds'].index(cr['seed']) + 1:]
+                       cr['name'], crash_text(obs)), {'seeds': [cr['seed']], 'no': 'replay'})
+        return [s for s in case['seeds'] if s != cr['seed']]
     if core.std_obs_check(ctx, case, obs):
         core.absorb(ctx, case, obs, lambda seed: {'seeds': [seed], 'no': 'replay'})
     return []
